@@ -61,9 +61,9 @@ PROPOSED_KNOWN = [
          signature="encode(define_components=false): the package imports a TYPE named n at world level and the last implicitly "
                    "imported interface has a `use` entry named n: State::used_type_index finds the stale name-keyed "
                    "type_aliases entry of the enclosing (builder) scope and emits an outer alias to an unrelated type",
-         witness="wit\tpackage test:gen;\\ninterface i1 { type t = char; variant v { c0 } }\\ninterface i2 { use i1.{v}; type t = v; }\\n"
-                 "world w { import inl: interface { use i1.{t}; f: func(a: t); } use i2.{t}; import g: func(a: t); }\\n",
-         text="the component type written for the dependency imports `t` as (eq <outer char>) instead of the variant: output "
+         witness="wit\tpackage test:gen;\\ninterface i3 { record u { f0: string } }\\ninterface i4 { type u = s16; }\\n"
+                 "world w { import i4; import inl: interface { use i3.{u}; nf0: func(a: u); } use i4.{u}; import g: func(a: u); }\\n",
+         text="the component type written for the dependency imports `u` as (eq <outer alias of the record i3.u>) instead of s16: output "
               "invalid / not satisfied"),
     dict(property=PID, id="instance-type-with-inner-resource-exported-as-type", status="known", key="F5",
          signature="an item of kind TYPE whose type is an instance/component type that itself declares a resource: the reference "
@@ -91,6 +91,49 @@ PROPOSED_KNOWN = [
          witness="wat\t(component (type $it (instance (type $f' (func)) (export \"ft\" (type $f (eq $f'))))) "
                  "(import \"a\" (instance (type $it))) (import \"b\" (instance (type $it))))",
          text="oracle failure (wasmparser 0.247 panic while validating the encoded composition, both modes); not attributable to wac"),
+    dict(property=PID, id="exported-interface-type-mentions-foreign-named-type-without-use", status="known", key="F9",
+         signature="encode(define_components=false): an EXPORTED interface has a type item (e.g. `type res = e` where `e` is "
+                   "`use`d from another interface) whose definition structurally contains a record/variant/enum/flags of another "
+                   "interface; for exported instances the validator gives no alias link from the item to the used type, "
+                   "from_bytes records a structural copy with no `uses` entry (find_owner does not see ids that were themselves "
+                   "resolved to an owner), and TypeEncoder re-declares the foreign named type anonymously",
+         witness="wit\tpackage test:gen;\\ninterface i0 { flags item { fa, fb } record e { f1: item } }\\n"
+                 "interface i2 { use i0.{e}; type res = e; }\\nworld w { export i2; }\\n",
+         text="output invalid: `instance not valid to be used as export` (anonymous flags/record inside the exported instance type)"),
+    dict(property=PID, id="uses-entry-points-to-interface-without-id", status="known", key="F10",
+         signature="an instance type that exports a func/instance/component type AS A TYPE is used by two plain-named imports "
+                   "(copies made by the validator because the type also declares a resource): such type ids are not aliasable, so "
+                   "use_or_own makes the second copy `use` the first; the first has no interface id (plain name) and the encoder "
+                   "cannot import it as a dependency",
+         witness="wat\t(component (type $it (instance (export \"r\" (type (sub resource))) (type $f' (func)) (export \"ft\" (type $f (eq $f'))))) "
+                 "(import \"a\" (instance (type $it))) (import \"b\" (instance (type $it))))",
+         text="encode fails in both modes: `failed to merge the type definition for implicit import` / `interface should have an id`"),
+    dict(property=PID, id="resources-keyed-by-name-in-one-scope", status="known", key="F11",
+         signature="encode: two different resources whose (source) names coincide are visible in one encoding scope, e.g. world-level "
+                   "`use a.{u}; use b.{u as v}`: TypeEncoder keeps `resources: IndexMap<String, u32>` keyed by the resource NAME and "
+                   "import_resource/own/borrow look the source up by name, so the second resource is encoded as an alias of the first",
+         witness="wit\tpackage test:gen;\\ninterface i2 { resource u; }\\ninterface i3 { resource u; }\\n"
+                 "world w { use i2.{u}; use i3.{u as v}; import f: func(a: u, b: v); }\\n",
+         text="emitted component type equates two distinct resources: substitution fails `resource types are not the same`; "
+              "in other arrangements the output is invalid or encode panics `no entry found for key`"),
+]
+
+# (known-finding key, mode, status pattern): the first rule whose structural feature is present and whose pattern matches
+# the re-encoding status classifies the failure.  mode: "imported" = only define_components=false fails,
+# "both" = the embedded composition fails / is invalid too, "any".
+RULES = [
+    ("F10", "any", r"failed to merge the type definition|should have an id"),
+    ("F8", "any", r"validator panicked"),
+    ("F11", "any", r"resource types are not the same|no entry found for key|^OUTPUT-INVALID"),
+    ("F9", "imported", r"not valid to be used as (export|import)|no entry found for key"),
+    ("F6", "both", r"scopes\.is_empty\(\)|no entry found for key"),
+    ("F2", "imported", r"expected only types, functions, and instance types"),
+    ("F3", "imported", r"^UNSATISFIED|^OUTPUT-INVALID|no entry found for key"),
+    ("F5", "imported", r"resource types are not the same"),
+    ("F4", "any", r"^UNSATISFIED|^OUTPUT-INVALID"),
+    ("F9", "both", r"not valid to be used as (export|import)|no entry found for key"),
+    ("F2", "both", r"^REENC-FAIL|^OUTPUT-INVALID"),
+    ("F5", "both", r"^REENC-FAIL|^OUTPUT-INVALID"),
 ]
 
 PANIC_MAP = [
@@ -219,10 +262,50 @@ def features(arenas_text, graph_text):
             f.add("F5")
         if k.startswith("tw:") and has_res("W", int(k[3:])):
             f.add("F5")
-    # F8: two top-level instance imports share one interface
-    il = [k for _, k in imports if k.startswith("i:")]
-    if len(il) != len(set(il)):
+    # F9: an interface has a value-type item that is not a `use` and whose definition reaches a record/variant/enum/flags
+    #     that is not one of its own items, or a handle of a resource that is not one of its own items
+    def reach(i, acc, hs):
+        for x in a["D"][i][1:]:
+            if re.fullmatch(r"d\d+", x):
+                j = int(x[1:])
+                if j not in acc:
+                    acc.add(j); reach(j, acc, hs)
+            elif re.fullmatch(r"[ob]\d+", x):
+                hs.add(int(x[1:]))
+        return acc, hs
+    for x in a["I"]:
+        items = x["items"][0]
+        own = {int(k[4:]) for _, k in items if re.fullmatch(r"tv:d\d+", k)}
+        own_res = {int(k[3:]) for _, k in items if k.startswith("tr:")}
+        used = {n for n, _, _ in x["uses"]}
+        for n, k in items:
+            if re.fullmatch(r"tv:d\d+", k) and n not in used:
+                ds, hs = reach(int(k[4:]), set(), set())
+                if any(a["D"][j][0] in ("record", "variant", "enum", "flags") and j not in own for j in ds) or (hs - own_res):
+                    f.add("F9")
+    # F10: a uses entry whose owner interface has no id
+    if any(a["I"][y]["id"] == "-" for i in a["I"] + a["W"] for _, y, _ in i["uses"]):
+        f.add("F10")
+    # F8: one instance type (interface) occurs at two places of the world
+    occ = {}
+    for idx, ent in [(("I", n), e) for n, e in enumerate(a["I"]) if n != a["P"]["inst"]] + [(("W", n), e) for n, e in enumerate(a["W"])]:
+        for l in ent["items"]:
+            for _, k in l:
+                if k.startswith("i:") or k.startswith("ti:"):
+                    occ[k.split(":")[1]] = occ.get(k.split(":")[1], 0) + 1
+    if any(v > 1 for v in occ.values()):
         f.add("F8")
+    # F11: two top-level resource imports with different roots whose names / root names coincide
+    def root(r):
+        seen = set()
+        while len(a["R"][r]) > 2 and r not in seen:
+            seen.add(r); r = int(a["R"][r][1][1:])
+        return r
+    tr = [(n, root(int(k[3:]))) for n, k in imports if k.startswith("tr:")]
+    for n1, r1 in tr:
+        for n2, r2 in tr:
+            if r1 != r2 and (a["R"][r1][0] in (n2, a["R"][r2][0]) or n1 == a["R"][r2][0]):
+                f.add("F11")
     # F6: a top-level import (function / value type) mentions a resource handle
     vt = def_handles(a)
     for _, k in imports:
@@ -331,24 +414,13 @@ def analyse(cases, impl, model):
         if kinds_failed == {"load"} and "prev.is_none()" in obs and "F1" in feats:
             sig = "F1"
         elif kinds_failed == {"reencode"}:
-            embedded_ok = "[embedded-ok]" in reenc
-            if "validator panicked" in reenc and "F8" in feats:
-                sig = "F8"
-            elif not embedded_ok and reenc.split(" ")[0] in ("REENC-FAIL", "OUTPUT-INVALID"):
-                if "F6" in feats and ("scopes.is_empty()" in reenc or "no entry found for key" in reenc):
-                    sig = "F6"
-                elif feats & {"F2", "F5"}:
-                    sig = "F7"
+            embedded_ok = "[embedded-ok]" in reenc or reenc.startswith("UNSATISFIED")
+            if not embedded_ok:
                 general_encoder += 1
-            elif "expected only types, functions, and instance types" in reenc and "F2" in feats:
-                sig = "F2"
-            elif "F3" in feats and (reenc.startswith("UNSATISFIED") or reenc.startswith("OUTPUT-INVALID")
-                                    or "no entry found for key" in reenc):
-                sig = "F3"
-            elif "F5" in feats and ("resource types are not the same" in reenc):
-                sig = "F5"
-            elif "F4" in feats and (reenc.startswith("UNSATISFIED") or reenc.startswith("OUTPUT-INVALID")):
-                sig = "F4"
+            for key, mode, pat in RULES:
+                if key in feats and (mode == "any" or (mode == "imported") == embedded_ok) and re.search(pat, reenc):
+                    sig = "F7" if (mode == "both" and key in ("F2", "F5")) else key
+                    break
         if sig and sig in known:
             known_hits.setdefault(sig, []).append((n, replay_case, fails[0][1]))
             continue
